@@ -42,6 +42,9 @@ pub enum TOp {
     WriteSec(u8),
     /// hold a write guard and only read through it
     WriteSecRo(u8),
+    /// hold a write guard: read, set, spin, then `set_if_not_eq` with the value just stored (must
+    /// change nothing and return None) -- one guard session, one notification owed
+    WriteSecSetNoop(u8),
     NextNow,
     Poll,
     /// poll a fresh `next_ref()` future once (the guard, if any, is read and dropped)
@@ -90,7 +93,16 @@ pub enum Kind {
     Update { k: u64 },
     Get { v: u64 },
     ReadSec { v1: u64, v2: u64, acq: u64, rel: u64 },
-    WriteSec { seen: u64, new: u64, prev: u64, acq: u64, rel: u64 },
+    WriteSec {
+        seen: u64,
+        new: u64,
+        prev: u64,
+        acq: u64,
+        rel: u64,
+        /// Some(r): `set_if_not_eq(new)` was called through the same guard after the set and returned r
+        #[serde(default)]
+        noop: Option<Option<u64>>,
+    },
     NextNow { sub: usize, v: u64 },
     Poll {
         sub: usize,
@@ -241,8 +253,16 @@ struct ThreadCtx {
     last_pending: Option<Arc<Flag>>,
     last_written: u64,
     main_phase: bool,
+    /// main phase only: every subscriber is polled with this one waker (one task driving them all)
+    main_flag: Option<Arc<Flag>>,
     waited: bool,
     recs: Vec<Rec>,
+}
+
+/// Every other program (by its total number of operations) has its main-phase polls made with one
+/// shared waker.
+fn one_waker(case: &ThrCase) -> bool {
+    case.threads.iter().map(|t| t.ops.len()).sum::<usize>() % 2 == 1
 }
 
 fn spin(n: u8) {
@@ -263,7 +283,7 @@ impl ThreadCtx {
     }
     fn poll_via(&mut self, clock: &AtomicU64, next_ref: bool) -> PR {
         let Some(sub) = self.sub.as_mut() else { return PR::Pending };
-        let flag = Flag::new();
+        let flag = self.main_flag.clone().unwrap_or_else(Flag::new);
         let w = flag_waker(&flag);
         let mut cx = Context::from_waker(&w);
         let inv = clock.fetch_add(1, Ordering::SeqCst);
@@ -353,7 +373,22 @@ impl ThreadCtx {
                 drop(g);
                 let res = t();
                 self.last_written = unique;
-                self.recs.push(Rec { thread: self.tid, main: self.main_phase, kind: Kind::WriteSec { seen, new: unique, prev, acq, rel }, inv, res });
+                self.recs.push(Rec { thread: self.tid, main: self.main_phase, kind: Kind::WriteSec { seen, new: unique, prev, acq, rel, noop: None }, inv, res });
+            }
+            TOp::WriteSecSetNoop(n) => {
+                let Some(o) = self.owner() else { return };
+                let inv = t();
+                let mut g = o.write();
+                let acq = t();
+                let seen = *g;
+                let prev = eyeball::ObservableWriteGuard::set(&mut g, unique);
+                spin(n);
+                let noop = eyeball::ObservableWriteGuard::set_if_not_eq(&mut g, unique);
+                let rel = t();
+                drop(g);
+                let res = t();
+                self.last_written = unique;
+                self.recs.push(Rec { thread: self.tid, main: self.main_phase, kind: Kind::WriteSec { seen, new: unique, prev, acq, rel, noop: Some(noop) }, inv, res });
             }
             TOp::WriteSecRo(n) => {
                 let Some(o) = self.owner() else { return };
@@ -534,7 +569,7 @@ pub fn execute(case: &ThrCase) -> Result<RunOut, String> {
     if !panics.is_empty() {
         return Err(format!("PANIC {} (schedule {:?})", panics.join("; "), trace));
     }
-    Ok(finish(ctxs, main_owner, &clock, init, trace, widths))
+    Ok(finish(ctxs, main_owner, &clock, init, trace, widths, one_waker(case)))
 }
 
 const INIT: u64 = 7;
@@ -553,6 +588,7 @@ fn make_ctxs(case: &ThrCase) -> (Vec<ThreadCtx>, Option<SharedObservable<u64>>) 
             last_pending: None,
             last_written: init,
             main_phase: false,
+            main_flag: None,
             waited: false,
             recs: vec![],
         })
@@ -563,8 +599,17 @@ fn make_ctxs(case: &ThrCase) -> (Vec<ThreadCtx>, Option<SharedObservable<u64>>) 
 
 /// After all workers are done: the main thread completes the history (final polls, final value,
 /// dropping what is left) and assembles the record.
-fn finish(mut ctxs: Vec<ThreadCtx>, main_owner: Option<SharedObservable<u64>>, clock: &AtomicU64, init: u64, trace: Vec<String>, widths: Vec<usize>) -> RunOut {
+fn finish(mut ctxs: Vec<ThreadCtx>, main_owner: Option<SharedObservable<u64>>, clock: &AtomicU64, init: u64, trace: Vec<String>, widths: Vec<usize>, one_waker: bool) -> RunOut {
     let clock = clock;
+    if one_waker {
+        // the main thread is one task: it may poll every subscriber with the same waker (the
+        // per-subscriber "woken since its Pending poll" observation is weaker in this mode, which is
+        // why only every other program uses it)
+        let f = Flag::new();
+        for c in ctxs.iter_mut() {
+            c.main_flag = Some(f.clone());
+        }
+    }
     // ---- after join: the main thread finishes the history
     let mut owners_alive = main_owner.is_some() as usize;
     for c in &ctxs {
@@ -666,7 +711,7 @@ pub fn run_reps(case: &ThrCase, prop: Prop, reps: u32) -> R<CaseReport> {
                 break;
             }
             let ctxs: Vec<ThreadCtx> = (0..n).map(|i| slots[i].lock().unwrap().take().expect("ctx back")).collect();
-            let out = finish(ctxs, main_owner, &clock, INIT, vec![], vec![]);
+            let out = finish(ctxs, main_owner, &clock, INIT, vec![], vec![], one_waker(case));
             match judge(case, &out, prop) {
                 Ok(rep) => {
                     merged.checks += rep.checks;
@@ -735,7 +780,7 @@ fn spec(kind: &Kind, s: u64) -> Option<u64> {
         Kind::Update { k } => Some(s + k),
         Kind::Get { v } => (*v == s).then_some(s),
         Kind::ReadSec { v1, .. } => (*v1 == s).then_some(s),
-        Kind::WriteSec { seen, new, prev, .. } => (*seen == s && *prev == s).then_some(*new),
+        Kind::WriteSec { seen, new, prev, noop, .. } => (*seen == s && *prev == s && !matches!(noop, Some(Some(_)))).then_some(*new),
         Kind::NextNow { v, .. } => (*v == s).then_some(s),
         Kind::Subscribe { v, .. } => (*v == s).then_some(s),
         Kind::Poll { res: PR::Item(v), .. } => (*v == s).then_some(s),
@@ -1085,6 +1130,7 @@ pub fn op(directed: bool) -> BoxedStrategy<TOp> {
             2 => n().prop_map(TOp::ReadSec),
             2 => n().prop_map(TOp::WriteSec),
             2 => n().prop_map(TOp::WriteSecRo),
+            1 => n().prop_map(TOp::WriteSecSetNoop),
             2 => Just(TOp::NextNow),
             2 => Just(TOp::Poll),
             2 => Just(TOp::PollNextRef),
